@@ -6,6 +6,7 @@ Open Scope N_scope.
    the CLI prints exactly one report (starting "path: ", ending in a line terminator) and exits 0.
    inspect: input (name data), observation (class detail)   class 0 ok, 2 panic, 3 fatal, 4 deadline, 5 memory
    cli:     input (path data), observation (exit-status starts-with-path ends-with-newline reports)
+            exit-status -2: the process was ended at its deadline (5 s for one file) without having finished;
             reports = number of report heads (output lines that do not start with a space) printed for the file;
             for the structured families the data is the inspect case of the same run named in the input, and is
             repeated in the input only when the observation is not the expected one. *)
@@ -25,7 +26,8 @@ Definition check_C01 (op : bytes) (input impl : arg) : arg :=
     | _ => AS "malformed observation"
     end
   else if bytes_eqb op (bs "cli") then
-    if negb (Z.eqb (arg_Z (arg_nth 0 impl)) 0) then AS "command-line tool exited with non-zero status"
+    if Z.eqb (arg_Z (arg_nth 0 impl)) (-2) then AS "command-line tool did not terminate within the deadline"
+    else if negb (Z.eqb (arg_Z (arg_nth 0 impl)) 0) then AS "command-line tool exited with non-zero status"
     else if negb (arg_bool (arg_nth 1 impl)) then AS "command-line tool did not print a report for the file"
     else if negb (arg_bool (arg_nth 2 impl)) then AS "report not terminated"
     else if negb (Z.eqb (arg_Z (arg_nth 3 impl)) 1) then AS "command-line tool did not print exactly one report for the file"
